@@ -201,6 +201,11 @@ theorem no_accept_first_offer (o : Bytes) (os : List Bytes) (d : Bytes) :
 /-- The accumulated numerator and denominator fit Go's `int` (the reason for the digit cap). -/
 theorem cap_fits_int : 10 ^ Facts.maxQDigits < 2 ^ 63 := by decide
 
+/-- … and it is not lower than the precision a float64 q-value carries: the reading "digits beyond what the
+q-value's own type can hold are not compared" allows a cap of 15 fractional digits, not a coarser one
+(with fewer, q=0.1234 and q=0.1239 would tie and the smaller could win the tie-break). -/
+theorem cap_keeps_float_precision : 15 ≤ Facts.maxQDigits := by decide
+
 theorem digitsLoop_bound (cap : Nat) (s : Bytes) (i n k : Nat) (hk : k ≤ cap) (hik : i < cap → k = i)
     (hn : n < 10 ^ k) :
     (digitsLoop cap s i n k).1.2 ≤ cap ∧ (digitsLoop cap s i n k).1.1 < 10 ^ (digitsLoop cap s i n k).1.2 := by
